@@ -1,0 +1,25 @@
+//go:build verif
+
+// Package verifexport re-exports internal libp2p packages for the verification harness
+// (internal/ packages cannot be imported from outside this subtree).
+package verifexport
+
+import (
+	"time"
+
+	"github.com/gauss-project/aurorafs/pkg/p2p/libp2p/internal/blocklist"
+	"github.com/gauss-project/aurorafs/pkg/storage"
+)
+
+// Blocklist is the internal blocklist type.
+type Blocklist = blocklist.Blocklist
+
+// NewBlocklist is blocklist.NewBlocklist.
+func NewBlocklist(store storage.StateStorer) *Blocklist {
+	return blocklist.NewBlocklist(store)
+}
+
+// SetBlocklistTimeNow pins the blocklist clock.
+func SetBlocklistTimeNow(f func() time.Time) {
+	blocklist.VerifSetTimeNow(f)
+}
